@@ -426,6 +426,18 @@ class Ovld:
 
     def lock(self):
         self._locked = True
+        for mixin in self.mixins:
+            mixin.lock()
+
+    def _lock_parents(self):
+        # Parents that do not link back to this ovld would silently drift
+        # apart from it if they were modified, so lock them, along with
+        # everything they derive from.
+        for mixin in self.mixins:
+            if self in mixin.children:
+                mixin._lock_parents()
+            else:
+                mixin.lock()
 
     def _attempt_modify(self):
         if self._locked:
@@ -484,9 +496,7 @@ class Ovld:
         This will also lock this ovld's parent mixins to prevent their
         modification.
         """
-        for mixin in self.mixins:
-            if self not in mixin.children:
-                mixin.lock()
+        self._lock_parents()
 
         if self.name is None:
             self.name = self.__name__ = f"ovld{self.id}"
